@@ -12,7 +12,7 @@ Definition ropsR2 : kops R R2 :=
     (fun x y => if Rlt_dec y x then true else false)
     (0, 0) (fun u v => (fst u + fst v, snd u + snd v)) (fun u v => (fst u - fst v, snd u - snd v))
     (fun a v => (a * fst v, a * snd v)) (fun v a => (fst v / a, snd v / a))
-    d2 (fun v => sqrt (d2 v v)).
+    d2 (fun v => sqrt (d2 v v)) (fun a b => sqrt (a * a + b * b)).
 Definition sym2 (a b c : R) (x : R2) : R2 := (a * fst x + b * snd x, b * fst x + c * snd x).
 
 Definition nonnegR (x : R) : Prop := 0 <= x.
@@ -21,7 +21,7 @@ Proof. unfold d2. nra. Qed.
 
 Lemma klaws_R2 a b c : klaws ropsR2 (sym2 a b c) nonnegR.
 Proof. unfold nonnegR.
-  constructor; cbn [ropsR2 c0 c1 cadd cmul csub copp cdiv cinv cconj cgtb vzero vadd vsub vscale vdiv vdot vnrm];
+  constructor; cbn [ropsR2 c0 c1 cadd cmul csub copp cdiv cinv cconj cgtb vzero vadd vsub vscale vdiv vdot vnrm chyp];
     unfold d2, sym2; intros; cbn [fst snd]; try reflexivity; try (unfold Rdiv; ring).
   - exact Rfield.
   - apply sqrt_sqrt. nra.
@@ -30,11 +30,12 @@ Proof. unfold nonnegR.
     assert (fst v = 0 /\ snd v = 0) as [E1 E2] by (split; nra). rewrite E1, E2. ring.
   - apply sqrt_pos.
   - apply Rmult_le_pos; assumption.
+  - apply sqrt_pos.
   - match goal with H : (if Rlt_dec ?y ?x then true else false) = true |- _ => destruct (Rlt_dec y x); [lra|discriminate] end.
 Qed.
 
 (* so the theorems apply: e.g. a full run on [[2,1],[1,3]] from (1,0) *)
-Example lanczos_R2_run : exists w, lanczos_facts ropsR2 (sym2 2 1 3) nonnegR (1/10000000) (1, 0) 2 5 w.
+Example lanczos_R2_run : exists w, lanczos_facts ropsR2 (sym2 2 1 3) nonnegR (1/10000000) (1, 0) 2 5 true w.
 Proof. apply lanczos_run.
   - apply klaws_R2.
   - unfold nonnegR. lra.
